@@ -164,3 +164,95 @@ def _gen_annex(rng):
 class AnnexAndExtBounded:
     def post_bip341(tx, vin_i, result):
         return tuple(result) == tuple(spec.bip341_annex_and_ext(tx.vin[vin_i].script_witness.stack))
+
+
+# ---------------------------------------------------------------- digests through Psbt and PsbtView (C09)
+def psbt_digests(inputs, sequences, lock_time, extra_outputs, sp, hash_type):
+    """a version 2 psbt (optionally with a BIP375 silent-payment output whose script has been
+    set) is asked for every input's digest directly and through the streamed view; returns the
+    two answers and the transaction, previous outputs and input kinds to recompute them from"""
+    import hashlib
+    from btclib.bip32 import BIP32KeyOrigin
+    from btclib.exceptions import BTClibValueError
+    from btclib.psbt import psbt as psbt_mod
+    from btclib.psbt import silent_payments as role
+    from btclib.psbt.psbt import Psbt
+    from btclib.psbt.psbt_in import PsbtIn
+    from btclib.psbt.psbt_out import PsbtOut
+    from btclib.psbt.psbt_view import PsbtView
+    from spec.ec_ref import SECP256K1 as C, sec_compressed
+    ins, prevouts, kinds = [], [], []
+    for k, (d, taproot) in enumerate(inputs):
+        P = C.mul(d, C.G)
+        spk = (b"\x51\x20" + P[0].to_bytes(32, "big")) if taproot else (b"\x00\x14" + hashlib.new("ripemd160", hashlib.sha256(sec_compressed(P)).digest()).digest())
+        hd = {} if taproot else {sec_compressed(P): BIP32KeyOrigin(bytes(4), [k])}
+        utxo = TxOut(70_000 + k, spk)
+        prevouts.append(utxo)
+        kinds.append(taproot)
+        ins.append(PsbtIn(witness_utxo=utxo, hd_key_paths=hd, previous_tx_id=bytes([k + 1]) * 32, output_index=k, sequence=sequences[k]))
+    outs = [PsbtOut(amount=v, script_pub_key=s) for v, s in extra_outputs]
+    if sp:
+        info = sec_compressed(C.mul(sp[0], C.G)) + sec_compressed(C.mul(sp[1], C.G))
+        outs.insert(min(sp[2], len(outs)), PsbtOut(amount=50_000, sp_v0_info=info))
+    psbt = Psbt(2, ins, outs, 2, {}, fallback_lock_time=lock_time, tx_modifiable=0)
+    if sp:
+        for k, (d, taproot) in enumerate(inputs):
+            try:
+                role.set_input_share(psbt, k, d, aux=bytes(32))
+            except BTClibValueError:
+                role.set_input_share(psbt, k, C.n - d, aux=bytes(32))
+        role.set_output_scripts(psbt)
+    view = PsbtView(psbt.serialize())
+    direct, streamed = [], []
+    for i, taproot in enumerate(kinds):
+        if taproot:
+            direct.append(psbt_mod.taproot_sig_hash(psbt, i, hash_type=hash_type))
+            streamed.append(view.taproot_sig_hash(i, hash_type=hash_type))
+        else:
+            ht = hash_type or 1
+            direct.append(psbt_mod.ecdsa_sig_hash(psbt, i, hash_type=ht))
+            streamed.append(view.ecdsa_sig_hash(i, hash_type=ht))
+    scripts = [(o.amount, bytes(o.script_pub_key)) for o in psbt.outputs]
+    return direct, streamed, scripts, view.tx == psbt.tx
+
+
+def _gen_psbt_digests(rng):
+    from spec.ec_ref import SECP256K1 as C
+    nin = rng.randrange(1, 4)
+    nout = rng.randrange(0 if False else 1, 3)
+    extra = [(rng.randrange(600, 10**6), rng.choice([b"\x00\x14" + bytes(rng.getrandbits(8) for _ in range(20)), b"\x51\x20" + bytes(range(32)), b"\x6a\x02hi"])) for _ in range(nout)]
+    sp = (rng.randrange(1, C.n), rng.randrange(1, C.n), rng.randrange(0, 3)) if rng.random() < 0.6 else None
+    return dict(inputs=[(rng.randrange(1, C.n), rng.random() < 0.5) for _ in range(nin)], sequences=[rng.choice([0xFFFFFFFF, 0xFFFFFFFE, 0, 7]) for _ in range(nin)],
+                lock_time=rng.choice([0, 0, 500000, 1700000000]), extra_outputs=extra, sp=sp, hash_type=rng.choice([0, 1, 2, 3, 0x81, 0x82, 0x83]))
+
+
+@contract("contracts.c_sighash.psbt_digests", gen=_gen_psbt_digests, props="C09", n_quick=80, n_thorough=2000,
+          rule="version 2 psbts with 1..3 p2wpkh / p2tr inputs, 1..2 ordinary outputs and, in 60%, a BIP375 silent-payment output whose script has been set (info and script together); every hash type")
+class PsbtDigestsBounded:
+    """the digest a Signer is handed by the psbt, and by the streamed view of its serialization,
+    is the BIP143 / BIP341 digest of the transaction the psbt describes"""
+
+    def raises_BTClibValueError(inputs, extra_outputs, sp, hash_type):
+        # SIGHASH_SINGLE for an input with no output at its index is refused (BIP341: invalid)
+        return hash_type & 3 == 3 and len(inputs) > len(extra_outputs) + (1 if sp else 0)
+
+    def post_digests_are_the_bips(inputs, sequences, lock_time, hash_type, result):
+        import hashlib
+        from spec.ec_ref import SECP256K1 as C, sec_compressed
+        direct, streamed, scripts, same_tx = result
+        vin = [TxIn(OutPoint(bytes([k + 1]) * 32, k), b"", sequences[k], Witness([]), check_validity=False) for k in range(len(inputs))]
+        vout = [TxOut(v, ScriptPubKey(s, check_validity=False), check_validity=False) for v, s in scripts]
+        tx = Tx(2, lock_time, vin, vout, check_validity=False)
+        prevouts = []
+        for k, (d, taproot) in enumerate(inputs):
+            P = C.mul(d, C.G)
+            spk = (b"\x51\x20" + P[0].to_bytes(32, "big")) if taproot else (b"\x00\x14" + hashlib.new("ripemd160", hashlib.sha256(sec_compressed(P)).digest()).digest())
+            prevouts.append(TxOut(70_000 + k, ScriptPubKey(spk, check_validity=False), check_validity=False))
+        want = []
+        for i, (d, taproot) in enumerate(inputs):
+            if taproot:
+                want.append(spec.bip341(tx, i, prevouts, hash_type, 0, b"", b""))
+            else:
+                code = b"\x76\xa9\x14" + prevouts[i].script_pub_key.script[2:] + b"\x88\xac"
+                want.append(spec.bip143(code, tx, i, hash_type or 1, prevouts[i].value))
+        return same_tx and direct == want and streamed == want
